@@ -166,10 +166,10 @@ def gen_cap_param(rng, g, lo, hi, cfg, prices):
 
 def coarse_freq(rng, g, cfg):
     """a coarser asset frequency compatible with the grid (multiples of the grid step that divide T)"""
+    if cfg.get('coarse_freqs') and rng.random() <= cfg.get('p_coarse', 0.0):
+        return rng.choice(cfg['coarse_freqs'])
     if rng.random() > cfg.get('p_coarse', 0.0) or g['freq'] not in ('h', '30min', '15min'):
         return None
-    if cfg.get('coarse_freqs'):
-        return rng.choice(cfg['coarse_freqs'])
     T = g['T']
     base = {'h': 60, '30min': 30, '15min': 15}[g['freq']]
     cands = [m for m in (2, 3, 4) if T % m == 0 or cfg.get('coarse_any', False)]
